@@ -35,6 +35,10 @@ type Case struct {
 	Method  string `json:"method"`
 	Depth   string `json:"depth,omitempty"`
 	Prior   []int  `json:"prior,omitempty"` // indices into priorOps: a benign history served before the probe
+	// RootSpell: how the served directory was spelled when it was configured (after C03-s14): 0 plainly, 1 through a
+	// symbolic link standing for one of its parents, 2 with a trailing slash, 3 with "/./" and "//" inside, 4 through a
+	// link and with a trailing slash
+	RootSpell int `json:"root_spell,omitempty"`
 }
 
 // priorOps: ordinary requests on ordinary names that reshape the served tree (files where collections were, a
@@ -62,7 +66,7 @@ func (s *sandbox) applyPrior(c Case) {
 		}
 		fmt.Fprintf(&b, "Content-Length: %d\r\n\r\n%s", len(body), body)
 		if req, err := http.ReadRequest(bufio.NewReader(strings.NewReader(b.String()))); err == nil {
-			cfs.Serve(s.srv.H, req)
+			cfs.Serve(s.srvs[c.RootSpell%len(s.srvs)].H, req)
 		}
 	}
 }
@@ -71,6 +75,7 @@ type sandbox struct {
 	base, outer, mid, root string
 	tokens                 []string // canary names and content tokens
 	srv                    *cfs.Server
+	srvs                   []*cfs.Server // the same directory configured in several spellings
 	outside                *vfs.Node
 	inside                 *vfs.Node
 }
@@ -137,6 +142,10 @@ func newSandbox(t testing.TB) *sandbox {
 	os.WriteFile(filepath.Join(s.outer, "pcanary.txt"), []byte("secret "+s.tokens[1]+"\n"), 0o644)
 	os.WriteFile(filepath.Join(s.mid, "root-old", "secret.txt"), []byte("secret "+s.tokens[1]+"\n"), 0o644)
 	s.srv = cfs.NewServer(s.root)
+	link := filepath.Join(base, "via")
+	os.Symlink(s.outer, link)
+	s.srvs = []*cfs.Server{s.srv, cfs.NewServer(filepath.Join(link, "mid", "root")), cfs.NewServer(s.root + "/"),
+		cfs.NewServer(s.outer + "/./mid//root"), cfs.NewServer(link + "/mid/root/")}
 	s.inside = insideTree()
 	if err := cfs.Sync(s.root, vfs.NewDir(), s.inside); err != nil {
 		t.Fatal(err)
@@ -237,7 +246,7 @@ func evaluate(t testing.TB, s *sandbox, c Case) vev.Outcome {
 	if c.Method == "PUT" && req.Body != nil {
 		req.Body = &spyBody{ReadCloser: req.Body, look: func() { during = s.snapshotOutside(t) }}
 	}
-	resp := cfs.Serve(s.srv.H, req)
+	resp := cfs.Serve(s.srvs[c.RootSpell%len(s.srvs)].H, req)
 	dev := func(kind, f string, a ...any) vev.Outcome {
 		return vev.Outcome{Sig: vev.Sig(cls, kind), Msg: fmt.Sprintf("%s %q via %s answered %d: ", c.Method, string(c.Str), c.Channel, resp.Status) + fmt.Sprintf(f, a...)}
 	}
@@ -301,7 +310,7 @@ func evaluate(t testing.TB, s *sandbox, c Case) vev.Outcome {
 			if err != nil {
 				return dev("href-not-a-request-path", "href %q cannot be sent back as a request path: %v", r.RawHref, err)
 			}
-			back := cfs.Serve(s.srv.H, breq)
+			back := cfs.Serve(s.srvs[c.RootSpell%len(s.srvs)].H, breq)
 			if back.Status != 207 {
 				return dev("href-not-readdressable", "href %q sent back answered %d", r.RawHref, back.Status)
 			}
@@ -414,7 +423,7 @@ func TestFixedStrings(t *testing.T) {
 				if !vev.MyShare(idx) {
 					continue
 				}
-				run(t, nil, s, Case{Str: vev.B(str), Channel: ch, Method: m.m, Depth: m.depth}, "fixed")
+				run(t, nil, s, Case{Str: vev.B(str), Channel: ch, Method: m.m, Depth: m.depth, RootSpell: idx % 5}, "fixed")
 			}
 		}
 	}
@@ -478,6 +487,7 @@ func TestGrammar(t *testing.T) {
 		if c.Channel == "destination" {
 			c.Method = rapid.SampledFrom([]string{"COPY", "MOVE"}).Draw(rt, "cm")
 		}
+		c.RootSpell = rapid.IntRange(0, 4).Draw(rt, "rootspell")
 		if rapid.Bool().Draw(rt, "withprior") {
 			c.Prior = rapid.SliceOfN(rapid.IntRange(0, len(priorOps)-1), 1, 3).Draw(rt, "prior")
 		}
